@@ -27,6 +27,7 @@ func runC15(c *Ctx) {
 	}
 	c15Concurrent(c)
 	c15FailedWrite(c)
+	c15RetriedOnNewConn(c)
 	c15RepeatedConnAck(c)
 	c15CallerSupplied(c)
 	c15Mixed(c)
@@ -630,4 +631,93 @@ func c15RepeatedConnAck(c *Ctx) {
 		Observe: func() uint64 { return net.TraceHash() },
 	}
 	c.Explore(sc)
+}
+
+// c15RetriedOnNewConn: a Subscribe / Unsubscribe that was interrupted is retried (ErrorWithRetry.Retry)
+// on a fresh connection while another request is outstanding there.  The two connections' counters
+// start at the same value, so an identifier carried over from the old connection, or taken without
+// advancing the counter, collides.
+func c15RetriedOnNewConn(c *Ctx) {
+	c.Bound("retried-on-new-connection", "Subscribe|Unsubscribe interrupted by a closed link, retried through ErrorWithRetry.Retry on a fresh BaseClient whose counter starts at the same value, before | after another QoS 1 publish that stays unacknowledged there; identifiers outstanding on the second connection must be distinct and non-zero; P<=1")
+	for _, k := range []string{"sub", "unsub"} {
+		for _, order := range []string{"other-first", "retry-first"} {
+			k, order := k, order
+			var net *env.Net
+			sc := &vrt.Scenario{
+				Name:  fmt.Sprintf("C15/retried-on-new-connection/%s/%s", k, order),
+				Bound: vrt.Budget{P: 1},
+				Cfg:   vrt.Config{Horizon: int64(30 * time.Second)},
+				Body: func() {
+					net = env.NewNet()
+					vrt.W.RandInt31n = func(n int32) int32 { return 100 }
+					s1 := env.NewScript(net)
+					s1.AutoConnAck = true
+					cli1 := &mqtt.BaseClient{Transport: s1.Conn}
+					if _, err := cli1.Connect(vctx.Background(), "c15"); err != nil {
+						vrt.Failf("harness", "connect: %v", err)
+						return
+					}
+					var err error
+					done := false
+					vrt.Go("caller", func() {
+						if k == "sub" {
+							_, err = cli1.Subscribe(vctx.Background(), mqtt.Subscription{Topic: "A", QoS: mqtt.QoS1})
+						} else {
+							err = cli1.Unsubscribe(vctx.Background(), "A")
+						}
+						done = true
+					})
+					vrt.Settle()
+					s1.Close()
+					vrt.Settle()
+					re, ok := err.(mqtt.ErrorWithRetry)
+					if !done || !ok {
+						return // whether an interrupted request is retryable is C19's matter
+					}
+					s2 := env.NewScript(net)
+					s2.AutoConnAck = true
+					cli2 := &mqtt.BaseClient{Transport: s2.Conn}
+					if _, err := cli2.Connect(vctx.Background(), "c15"); err != nil {
+						vrt.Failf("harness", "connect: %v", err)
+						return
+					}
+					ctx, cancel := vctx.WithCancel(vctx.Background())
+					other := func() { cli2.Publish(ctx, &mqtt.Message{Topic: "t", QoS: mqtt.QoS1, Payload: []byte("Z")}) }
+					retry := func() { re.Retry(ctx, cli2) }
+					if order == "other-first" {
+						vrt.Go("other", other)
+						vrt.Settle()
+						vrt.Go("retry", retry)
+					} else {
+						vrt.Go("retry", retry)
+						vrt.Settle()
+						vrt.Go("other", other)
+					}
+					vrt.Settle()
+					seen := map[uint16]string{}
+					for _, pk := range s2.Got {
+						if pk.Type != env.PUBLISH && pk.Type != env.SUBSCRIBE && pk.Type != env.UNSUBSCRIBE {
+							continue
+						}
+						if pk.ID == 0 {
+							vrt.Failf("c15/zero-id", "a request carries identifier 0: %v", net.TraceStrings())
+						}
+						if prev, ok := seen[pk.ID]; ok {
+							vrt.Failf("c15/duplicate-outstanding-id:retried-"+k, "identifier %d is carried by two requests outstanding on the second connection (%s and %s):\n  %s", pk.ID, prev, pk, strings.Join(net.TraceStrings(), "\n  "))
+						}
+						seen[pk.ID] = pk.String()
+					}
+					if len(seen) != 2 {
+						vrt.Failf("harness", "expected two outstanding requests on the second connection, saw %d", len(seen))
+					}
+					cancel()
+					cli1.Close()
+					cli2.Close()
+					vrt.Quiesce()
+				},
+				Observe: func() uint64 { return net.TraceHash() },
+			}
+			c.Explore(sc)
+		}
+	}
 }
